@@ -995,17 +995,6 @@ def _has_trivial_qubit_ctrl(recipe):
     return False
 
 
-def _f5(sub, recipe):
-    """ThreeQubitDiagonalGate._decompose_ re-assigns qubit roles by adjacency (only valid for symmetric gates)."""
-    if not sub.startswith("decompose"):
-        return False
-    r = recipe["op"]
-    if r["g"][0] != "ThreeQubitDiagonal":
-        return False
-    a, bq, c = O.build(r).ref.qubits[-3:]  # the gate's own three qubits after every renaming
-    return hasattr(bq, "is_adjacent") and not (bq.is_adjacent(a) and bq.is_adjacent(c))
-
-
 def _f14(sub, recipe):
     """XPowGate/ZPowGate(dimension>2).controlled() shortcut returns the *qubit* CX/CZ gate."""
     r = recipe.get("op", recipe)
@@ -1037,26 +1026,6 @@ def _f13(sub, recipe):
     return any(isinstance(w, dict) and w.get("k") in ("par", "circ") for w in r.get("w", []))
 
 
-def _f15(sub, recipe):
-    """apply_unitary(default) after a decomposition whose unitary prefix was already applied: target is mutated."""
-    if not (sub.startswith("apply_unitary") or sub in ("channel", "act_on")):
-        return False
-    r = recipe["op"]
-    fam = G.FAMILIES.get(r["g"][0])
-    if fam is None or fam.unitary:
-        return False
-    return any(isinstance(w, dict) and w.get("k") == "circ" and int(w.get("x", 0)) % 4 == 1 for w in r.get("w", []))
-
-
-def _f16(sub, recipe):
-    """ControlledOperation._extend_matrix indexes with python bools (numpy mask semantics): unitary/mixture ignore the control."""
-    r = recipe.get("op", recipe)
-    if any(isinstance(w, dict) and w.get("k") == "ctrl" and w.get("b") and not w.get("sop") for w in r.get("w", [])):
-        return True
-    # UniformSuperpositionGate._decompose_ emits controlled_by(..., control_values=[False])
-    return sub.startswith("decompose") and r["g"][0] == "UniformSuperposition"
-
-
 def _f17(sub, recipe):
     """decomposition strategy of apply_unitary drops `subspaces` / the implicit 0..d-1 restriction."""
     if not sub.startswith("apply_unitary"):
@@ -1075,23 +1044,34 @@ def _f17(sub, recipe):
     return res is None
 
 
-def _f19(sub, recipe):
-    """PauliString.__pow__ ignores a non-unit coefficient: (-X)**3 == X**3, (1j*I)**2 has the wrong sign (C08/C14 territory)."""
+def _f16b(sub, recipe):
+    """ControlledGate._decompose_with_context_ indexes `rads[hot]` with python-bool control values (numpy mask semantics):
+    the controlled global phase of a decomposition is lost when control values are given as bools."""
+    if not sub.startswith("decompose"):
+        return False
     r = recipe.get("op", recipe)
-    if r["g"][0] != "DensePauli" or not r["g"][1].get("c"):
+    if r["g"][0] == "UniformSuperposition":  # its own _decompose_ emits controlled_by(..., control_values=[False])
+        return True
+    return any(isinstance(w, dict) and w.get("k") == "ctrl" and w.get("b") and not w.get("sop") for w in r.get("w", []))
+
+
+def _f19(sub, recipe):
+    """A PauliString without qubits but with a coefficient, raised to a power: the zero-qubit PauliStringPhasor it
+    returns has the identity as unitary ((1j*PauliString())**2 should be -1).  Gate algebra (C08/C14), edge of the domain."""
+    r = recipe.get("op", recipe)
+    p = r["g"][1]
+    if r["g"][0] != "DensePauli" or not p.get("c") or any(ch != "I" for ch in p.get("ps", [])):
         return False
     return any(isinstance(w, dict) and w.get("k") == "pow" for w in r.get("w", []))
 
 
 KNOWN_FEATURES = {
-    "F5_three_qubit_diagonal_decompose_qubit_roles": _f5,
+    "F16b_bool_control_values_controlled_gate_decompose": _f16b,
     "F12_has_mixture_without_mixture": _f12,
     "F13_has_kraus_by_decomposition_without_kraus": _f13,
     "F14_qudit_pow_gate_controlled_shortcut": _f14,
-    "F15_apply_unitary_default_after_partial_decomposition": _f15,
-    "F16_bool_control_values_extend_matrix": _f16,
     "F17_apply_unitary_decompose_ignores_subspaces": _f17,
-    "F19_pauli_string_pow_ignores_coefficient": _f19,
+    "F19_empty_pauli_string_pow_ignores_coefficient": _f19,
 }
 
 _UNITARY = lambda f: f.unitary  # noqa: E731
